@@ -576,7 +576,9 @@ func (e *e6Interp) binop(op token.Token, x, y *Sym, t types.Type) *Sym {
 		// canonical operand order for == and !=; rewrite > as <, >= as <=
 		switch op {
 		case token.EQL, token.NEQ:
-			if x.String() > y.String() {
+			if x.isConst() && !y.isConst() {
+				x, y = y, x
+			} else if !x.isConst() && !y.isConst() && x.String() > y.String() {
 				x, y = y, x
 			}
 		case token.GTR:
